@@ -623,15 +623,34 @@ pub fn cmd_c10(tier: &str, out: &str) {
         }
         // near-frames after the noise: frame-like sequences that must be rejected with one error each
         let nears: Vec<Vec<u8>> = (0..=k).map(|_| if case % 2 == 1 && rng.chance(1, 2) { near_frame(&mut rng) } else { vec![] }).collect();
+        // noise directly behind a near-frame (the decoder has just rejected a transmission, possibly with withheld zeros)
+        let posts: Vec<Vec<u8>> = nears
+            .iter()
+            .map(|nr| {
+                if nr.is_empty() || !rng.chance(1, 2) {
+                    return vec![];
+                }
+                let l = 1 + rng.below(5);
+                let g: Vec<u8> = (0..l).map(|_| if rng.chance(1, 3) { *rng.pick(&[0x1bu8, 1, 0x1a, 0]) } else { rng.byte() }).collect();
+                let mut probe = g.clone();
+                probe.extend(START);
+                if (0..=probe.len() - 8).filter(|i| probe[*i..*i + 8] == START).count() != 1 {
+                    return vec![];
+                }
+                g
+            })
+            .collect();
         let mut stream: Vec<u8> = noises[0].clone();
         stream.extend(&nears[0]);
+        stream.extend(&posts[0]);
         for i in 0..k {
             stream.extend(frame(&files[i]));
             stream.extend(&noises[i + 1]);
             stream.extend(&nears[i + 1]);
+            stream.extend(&posts[i + 1]);
         }
         // expected number of results: noise reports + near-frame errors + values + end; calls: that many plus 3 more
-        let nres = k + noises.iter().filter(|g| !g.is_empty()).count() + nears.iter().filter(|g| !g.is_empty()).count() + 3;
+        let nres = k + noises.iter().filter(|g| !g.is_empty()).count() + nears.iter().filter(|g| !g.is_empty()).count() + posts.iter().filter(|g| !g.is_empty()).count() + 3;
         let calls: Vec<(u8, u8)> = (0..nres)
             .map(|_| (if case % 5 == 1 { 1 } else if case % 5 == 2 { rng.below(2) as u8 } else if case % 5 == 3 { rng.below(4) as u8 } else if case % 5 == 4 { 2 } else { 0 }, if case % 3 == 0 { (case / 3 % 3) as u8 } else { rng.below(3) as u8 }))
             .collect();
@@ -650,10 +669,11 @@ pub fn cmd_c10(tier: &str, out: &str) {
             let key = format!("{:?}|{:?}|{}|{}", stream, calls, src, buf);
             ks.put(&key, || {
                 format!(
-                    "{{\"files\":{},\"noise\":{},\"near\":{},\"stream\":{},\"src\":{},\"buf\":{},\"nfix\":{},\"calls\":{},\"res\":[{}],\"hand\":[{}]}}",
+                    "{{\"files\":{},\"noise\":{},\"near\":{},\"post\":{},\"stream\":{},\"src\":{},\"buf\":{},\"nfix\":{},\"calls\":{},\"res\":[{}],\"hand\":[{}]}}",
                     jarr2(&files.iter().map(|f| f.iter().map(|b| *b as i64).collect()).collect::<Vec<Vec<i64>>>()),
                     jarr2(&noises.iter().map(|f| f.iter().map(|b| *b as i64).collect()).collect::<Vec<Vec<i64>>>()),
                     jarr2(&nears.iter().map(|f| f.iter().map(|b| *b as i64).collect()).collect::<Vec<Vec<i64>>>()),
+                    jarr2(&posts.iter().map(|f| f.iter().map(|b| *b as i64).collect()).collect::<Vec<Vec<i64>>>()),
                     jarr(&stream),
                     src,
                     buf,
